@@ -11,6 +11,7 @@ one value at a time, and the real code runs under it."""
 from vf.harness import Harness
 from vf.explore import Yield
 from vf.env import c02_env as E
+from vf.env import c02t_env as ET
 from vf.env.c02_env import S, Plan, Device, FakeDriver, Hang, Deadlock, TaskDied
 from vf.env.c03_env import Entry
 
@@ -43,15 +44,26 @@ NAMES = ('connection_requested', 'link_established', 'connected', 'fully_connect
 
 
 class World:
-    def __init__(self, sym, extended=False, version=10):
+    DRIVER = FakeDriver
+
+    def _install(self):
         E.install()        # idempotent; never at import time (the runner process imports this module too)
         E.reset()
+
+    def shutdown(self):
+        pass
+
+    def __init__(self, sym, extended=False, version=10):
+        self._install()
         params = [Entry(0x08, b'p', b'a')]
+        if sym.B.get('params', 1) > 1:
+            # several values to fetch: reads queue up behind the outstanding one
+            params += [Entry(0x08, b'p', bytes([ord('c') + i])) for i in range(sym.B['params'] - 1)]
         if extended:
             params.append(Entry(0x18, b'p', b'b', persistent=True))
         self.plan = Plan(Device(version, params=params))
         FakeDriver.plan = self.plan
-        cflib.crtp.CLASSES[:] = [FakeDriver]
+        cflib.crtp.CLASSES[:] = [self.DRIVER]
         self.cf = Crazyflie()
         self.ev = []
         for n in NAMES:
@@ -78,10 +90,10 @@ class World:
         if link is not None and link.rxq:
             r.append('incoming')
         pu = th['updater']
-        if pu.request_queue.items and not pu.wait_lock.held:
+        if pu.request_queue.pending() and not pu.wait_lock.held:
             r.append('updater')
         f = th.get('fetcher')
-        if f is not None and f.request_queue.items and not f._lock.held:
+        if f is not None and f.request_queue.pending() and not f._lock.held:
             r.append('fetcher')
         if 'ping' in th and self.pings < 1 and link is not None and not self.cf._send_lock.held:
             r.append('ping')
@@ -130,6 +142,62 @@ class World:
             self.step(r[0])
 
 
+class WorldT(World):
+    """The same world on baton-scheduled real threads (vf/env/c02t_env.py): a task keeps its stack across blocking calls."""
+    DRIVER = ET.DriverT
+    ROLE = {'_IncomingPacketHandler': 'incoming', '_ParamUpdater': 'updater', '_ExtendedTypeFetcher': 'fetcher', 'ping': 'ping'}
+
+    def _install(self):
+        ET.install()
+        ET.reset(self)
+
+    def shutdown(self):
+        ET.shutdown()
+
+    def threads(self):
+        out = {}
+        for t in ET.T.tasks:
+            if t.state != 'done' and t.name in self.ROLE:
+                out[self.ROLE[t.name]] = t
+        return out
+
+    def runnable(self):
+        th = self.threads()
+        link = self.cf.link
+        r = []
+        for role in ('incoming', 'updater', 'fetcher', 'ping'):
+            t = th.get(role)
+            if t is None:
+                continue
+            if role == 'incoming' and (t.state == 'new' or t.what in ('receive_packet', 'sleep')):
+                ok = t.state == 'new' or (link is not None and bool(link.rxq))
+            elif role == 'ping' and (t.state == 'new' or t.what == 'sleep'):
+                stopping = self.cf.link_statistics.latency._stop_event.is_set()
+                ok = stopping or (self.pings < 1 and link is not None)
+            else:
+                ok = t.state == 'new' or (t.state == 'waiting' and t.cond())
+            if ok:
+                r.append(role)
+        return r
+
+    def step(self, name):
+        t = self.threads()[name]
+        self.steps += 1
+        if name == 'incoming' and self.cf.link is not None:
+            self.cf.link.budget = 1
+        if name == 'ping' and not self.cf.link_statistics.latency._stop_event.is_set():
+            self.pings += 1
+        ET.resume(t)
+        if t.state == 'done':
+            if t.error is not None:
+                self.died.append(f'{name} died: {type(t.error).__name__}: {t.error}')
+            elif name in ('incoming', 'updater'):
+                self.died.append(f'{name} returned')     # the dispatcher and the parameter updater live as long as the object
+
+    def user(self, fn):
+        return fn()
+
+
 def check_word(ev):
     """Split the callback sequence into attempts and check each against the grammar of the statement."""
     attempts, cur_ = [], None
@@ -161,14 +229,34 @@ def final_checks(sym, w):
     cf = w.cf
     assert not w.died, f'thread died: {w.died}'
     assert not w.plan.violations, w.plan.violations
+    _name_locks(cf)
     leaked = [l for l in S.locks if l.held]
     assert not leaked, f'lock left held: {[(l.name, l.holder) for l in leaked]}'
+    if isinstance(w, WorldT):
+        stuck = [(t.name, t.what) for t in ET.T.tasks if t.state == 'waiting' and not t.cond() and
+                 (t.what.startswith('join') or t.what.startswith('acquire') or t.what == 'Event.wait')]
+        assert not stuck, f'thread blocked for ever at quiescence: {stuck}'
+
+
+def _name_locks(cf):
+    for owner, attr in ((cf, '_send_lock'), (cf.param.param_updater, 'wait_lock'), (cf.mem, '_read_requests_lock'),
+                        (cf.mem, '_write_requests_lock')):
+        l = getattr(owner, attr, None)
+        if l is not None and hasattr(l, 'name'):
+            l.name = attr
 
 
 def h_lifecycle(sym):
     """One history: open_link, nominal schedule with deviations at solver-chosen positions, then close/reopen epilogue."""
+    w = (WorldT if sym.B.get('threads') else World)(sym, extended=sym.B.get('extended', False), version=sym.B.get('version', 10))
+    try:
+        _lifecycle(sym, w)
+    finally:
+        w.shutdown()
+
+
+def _lifecycle(sym, w):
     D = sym.B['deviations']
-    w = World(sym, extended=sym.B.get('extended', False), version=sym.B.get('version', 10))
     cf = w.cf
     devs = []
     for i in range(D):
@@ -368,6 +456,17 @@ HARNESSES = [
             symbolic=False, goals=_G1, note='solver enumerates (kind, position) of one deviation; everything else is concrete'),
     Harness('lifecycle[1,v2,extended]', h_lifecycle, quick=dict(deviations=1, kinds=ALL, max_pos=28, extended=True), timeout=(600, 1800),
             symbolic=False, goals=('faulted', 'reconnected'), note='parameter table with an extended (persistent) entry: extended-type fetcher task'),
+    Harness('lifecycle[1,v2,3 params]', h_lifecycle, quick=dict(deviations=1, kinds=ALL, max_pos=30, params=3), timeout=(600, 1800),
+            symbolic=False, goals=('faulted', 'closed-mid-sequence', 'reconnected'),
+            note='three parameter values to fetch: reads queue up behind the outstanding one when the link goes down'),
+    Harness('threads[1,v2,3 params]', h_lifecycle, quick=dict(deviations=1, kinds=['none'] + ALL, max_pos=40, params=3, threads=True), timeout=(900, 2400),
+            symbolic=False, goals=_G1,
+            note='baton-scheduled real threads (a task keeps its stack across blocking calls): one deviation, three parameter values'),
+    Harness('threads[1,v2,extended]', h_lifecycle, quick=dict(deviations=1, kinds=ALL, max_pos=44, params=2, extended=True, threads=True),
+            timeout=(900, 2400), symbolic=False, goals=('faulted', 'closed-mid-sequence', 'reconnected'),
+            note='baton-scheduled real threads; parameter table with an extended (persistent) entry: extended-type fetcher thread'),
+    Harness('threads[1,v1]', h_lifecycle, quick=dict(deviations=1, kinds=ALL, max_pos=40, params=2, version=3, threads=True),
+            timeout=(900, 2400), symbolic=False, goals=('faulted', 'reconnected'), note='baton-scheduled real threads; legacy protocol generation'),
     Harness('lifecycle[1,observer]', h_lifecycle, quick=dict(deviations=1, kinds=['none', 'error-from-driver', 'error-in-send', 'close_link'], max_pos=16, observer=True),
             timeout=(900, 2400), symbolic=False, goals=('late-observer', 'reconnected'),
             note='as lifecycle[1,v2] plus an application observer subscribing at a solver-chosen step'),
@@ -376,7 +475,12 @@ HARNESSES = [
 ] + [Harness(f'lifecycle[2,{k}]', h_lifecycle, quick=dict(deviations=2, kinds0=[k], kinds=ALL, max_pos=20),
              thorough=dict(deviations=2, kinds0=[k], kinds=ALL, max_pos=26, extended=True), timeout=(900, 3600), symbolic=False,
              goals=('reconnected',), tiers=('quick', 'thorough') if k in ('error-from-driver', 'error-in-send', 'close_link', 'ping-first') else ('thorough',),
-             note='two deviations; the first kind is fixed per harness instance') for k in ALL] + [
+             note='two deviations; the first kind is fixed per harness instance') for k in ALL
+] + [Harness(f'threads[2,{k}]', h_lifecycle, quick=dict(deviations=2, kinds0=[k], kinds=ALL, max_pos=26, params=2, threads=True),
+             thorough=dict(deviations=2, kinds0=[k], kinds=ALL, max_pos=34, params=3, extended=True, threads=True), timeout=(900, 3600),
+             symbolic=False, goals=('reconnected',),
+             tiers=('quick', 'thorough') if k in ('error-from-driver', 'error-in-send', 'close_link', 'duplicate-reply') else ('thorough',),
+             note='baton-scheduled real threads; two deviations, the first kind fixed per harness instance') for k in ALL] + [
     Harness('open_fail', h_open_fail, symbolic=False, goals=('failed-then-connected', 'error-during-connect'), timeout=(120, 300)),
     Harness('sync', h_sync, quick=dict(kinds=['none', 'error-from-driver', 'error-in-send'], max_pos=24), symbolic=False,
             goals=('opened', 'open-raised', 'error-during-open'), timeout=(600, 1800)),
